@@ -44,6 +44,12 @@ func (c10) Gen(seed uint64, run int, tier string) *Plan {
 	if r.Intn(2) == 0 {
 		cfg.SMB = []world.SMBCfg{{Name: "smb-prof", PipeName: "pp"}}
 	}
+	if r.Intn(4) == 0 && len(cfg.HTTP) > 0 {
+		// the profile's listener asks for request headers / sends response headers whose values
+		// contain ", " themselves
+		cfg.HTTP[0].Headers = []string{"Accept: text/html, application/xml", "X-Tok: 1"}
+		cfg.HTTP[0].RespHdrs = []string{"Expires: Thu, 01 Jan 1970 00:00:00 GMT"}
+	}
 	p := &Plan{Engine: EngineVersion, Property: "C10", Seed: seed, Run: run, Tier: tier, Cfg: cfg, Knobs: map[string]int{}}
 	p.Policy = simrt.Policy{Name: "atomic"}
 	p.Knobs["hist"] = hist
